@@ -81,18 +81,29 @@ Definition ex_file : list Z := mp4_build (ex_layout true [MHdlr; MIlst; MFree 16
 
 Example C10_ex_wellformed : mp4_wf ex_file = true.
 Proof. vm_compute. reflexivity. Qed.
+Definition ex_check : bool :=
+  match mp4_atoms ex_file with
+  | Ok atoms =>
+    match mp4_path atoms ILST_PATH with
+    | Some _ =>
+      mp4_tags_clean atoms &&
+      match mp4_atoms ex_ilst_big with
+      | Ok [it] => mp4_forest_ok ex_ilst_big false [it] 0 (zlen ex_ilst_big)
+      | _ => false end &&
+      match mp4_save ex_file ex_ilst_big (mp4_cb_const 9) with Ok f' => mp4_wf f' | _ => false end
+    | None => false end
+  | _ => false end.
 Example C10_ex_hypotheses :
   exists atoms path it f', mp4_atoms ex_file = Ok atoms /\ mp4_path atoms ILST_PATH = Some path /\ mp4_tags_clean atoms = true /\
     ilst_wellformed ex_ilst_big it /\ mp4_save ex_file ex_ilst_big (mp4_cb_const 9) = Ok f' /\ mp4_wf f' = true.
 Proof.
-  destruct (mp4_atoms ex_file) as [atoms|] eqn:Ea; [|vm_compute in Ea; discriminate].
-  destruct (mp4_path atoms ILST_PATH) as [path|] eqn:Ep; [|vm_compute in Ea; inversion Ea; subst; vm_compute in Ep; discriminate].
-  destruct (mp4_save ex_file ex_ilst_big (mp4_cb_const 9)) as [f'|] eqn:Es; [|vm_compute in Es; discriminate].
-  destruct (mp4_atoms ex_ilst_big) as [[|it [|]]|] eqn:Ei; try (vm_compute in Ei; discriminate).
-  exists atoms, path, it, f'. repeat split; auto.
-  - vm_compute in Ea. inversion Ea; subst. vm_compute. reflexivity.
-  - vm_compute in Ei. inversion Ei; subst. vm_compute. reflexivity.
-  - vm_compute in Es. inversion Es; subst. vm_compute. reflexivity.
+  assert (H : ex_check = true) by (vm_compute; reflexivity). unfold ex_check in H.
+  destruct (mp4_atoms ex_file) as [atoms|] eqn:Ea; [|discriminate].
+  destruct (mp4_path atoms ILST_PATH) as [path|] eqn:Ep; [|discriminate].
+  apply andb_true_iff in H. destruct H as [H H3]. apply andb_true_iff in H. destruct H as [H1 H2].
+  destruct (mp4_atoms ex_ilst_big) as [[|it [|]]|]; try discriminate.
+  destruct (mp4_save ex_file ex_ilst_big (mp4_cb_const 9)) as [f'|] eqn:Es; [|discriminate].
+  exists atoms, path, it, f'. unfold ilst_wellformed. tauto.
 Qed.
 
 (* all recorded offsets before and after a growing and a shrinking save: every one moved by exactly the size change
